@@ -1032,6 +1032,27 @@ func (e *SpecEnv) evalCall(n *ast.CallExpr) Value {
 			e.errorf("%s: expected %d args", fname, len(pf.Params))
 			return UnknownV{}
 		}
+		if x.opaquePure[fname] {
+			// uninterpreted in this function's verification: a function of the argument values
+			// (for a byte slice: of its backing bytes and offset), nothing else is known about it
+			var args []*Term
+			okAll := true
+			for i := range pf.Params {
+				switch v := argv(i).(type) {
+				case Scalar:
+					args = append(args, v.T)
+				case SliceV:
+					args = append(args, x.objGet(e.st, elemKey(tyByte), Arr(bv64, BV(8)), v.Arr), v.Off)
+				default:
+					okAll = false
+				}
+			}
+			if ty := e.typeByName(pf.ResTy); ty != nil && okAll {
+				return Scalar{T: x.VC.UF("opq_"+fname, scalarSort(ty), args...), Ty: ty}
+			}
+			e.errorf("%s: cannot be made opaque (argument or result kind)", fname)
+			return UnknownV{}
+		}
 		if e.depth > 20 {
 			e.errorf("%s: macro expansion too deep", fname)
 			return UnknownV{}
